@@ -22,7 +22,7 @@ KIND = {
     'ctor': '.ctor', 'method': '.method', 'static': '.static', 'free': '.free', 'mutator': '.mutator',
     'mutable-ref': '.mutableRef', 'cast-ctor': '.castCtor', 'cast-assign': '.castAssign',
     'hash': '.hash', 'stream': '.stream', 'stdmath': '.stdmath', 'convert-copy': '.convertCopy',
-    'convert-inplace': '.convertInplace', 'map-kernel': '.mapKernel', 'static-kernel': '.staticKernel',
+    'convert-inplace': '.convertInplace',
     'convert-static': '.convertStatic', 'model-ctor': '.modelCtor', 'model-accessor': '.modelAccessor',
     'model-virtual': '.modelVirtual', 'model-string': '.modelString', 'model-type': '.modelType',
     'model-compare': '.modelCompare', 'model-hash': '.modelHash', 'model-stream': '.modelStream',
@@ -227,6 +227,21 @@ class Emitter:
         if meta.get('self'):
             arg_tys = [self.ty(cls)] + arg_tys
         arg_sizes = list(v['arg_sizes'])
+        kind = KIND.get(meta['kind'])
+        if meta['kind'] in ('map-kernel', 'static-kernel'):
+            kind = '.%sKernel%s' % ('map' if meta['kind'] == 'map-kernel' else 'static',
+                                    'To' if meta['name'] == 'ToStandard' else 'From')
+        if meta.get('family'):
+            for en, pv in zip(meta['family']['params'], inst['params']):
+                arg_tys.append('(.enumv %d %d)' % (self.unit_index[en], pv))
+                arg_sizes.append(0)
+        elif meta['kind'] == 'static-kernel':
+            arg_tys.append(self.ty('%s::%s' % (meta['enum'], meta['unit'])))
+            arg_sizes.append(0)
+        elif meta['kind'] == 'convert-static':
+            for u in (meta['from'], meta['to']):
+                arg_tys.append(self.ty('%s::%s' % (meta['enum'], u)))
+                arg_sizes.append(0)
         if meta.get('static_unit'):
             # compile-time unit argument: recorded as a trailing enumerator argument of size 0
             arg_tys.append(self.ty('%s::%s' % (meta['enum'], meta['unit'])))
@@ -244,7 +259,7 @@ class Emitter:
         comps = self.classes[cidx - 1]['comps'] if cidx else 0
         body = ('{ id := %s, kind := %s, opr := %s, mem := %s, cls := %d, fm := %s, ufm := %s, self := %s,\n'
                 '    args := [%s], argSizes := [%s], ret := %s, nIn := %d,\n    tree := %s }' % (
-                    lean_str(eid), KIND[meta['kind']], opr, mem_of(meta, comps), cidx, FM[fmt],
+                    lean_str(eid), kind, opr, mem_of(meta, comps), cidx, FM[fmt],
                     ('some ' + FM[ufm]) if ufm else 'none', 'true' if meta.get('self') else 'false',
                     ', '.join(arg_tys), ', '.join(str(x) for x in arg_sizes),
                     self.ty(ret_name), v['n_in'], dtree(v['tree'])))
@@ -321,14 +336,17 @@ class Emitter:
             counts[mod] = self.emit_entries_module(mod, es, mod + '.lean')
             mods.append(mod)
         self.emit_tables()
+        self.emit_kernels()
         emit_obligations(self, counts)
         self.n_twins = emit_twins(self)
         emit_dircast(self)
         emit_layout(self)
+        self._emit_pairs = lambda umods: emit_pairs_obligations(self, umods)
         # aggregate
         lines = ['-- GENERATED by emit_lean.py -- do not edit.']
         lines += ['import PhQVerif.Generated.%s' % m for m in mods]
-        lines += ['import PhQVerif.Generated.Tables', 'namespace PhQVerif.Generated', '']
+        lines += ['import PhQVerif.Generated.Tables', 'import PhQVerif.Generated.Kernels',
+                  'namespace PhQVerif.Generated', '']
         qmods = [m for m in mods if m.startswith('Q_')]
         umods = [m for m in mods if m.startswith('U_')]
         mmods = [m for m in mods if m.startswith('M_')]
@@ -343,6 +361,7 @@ class Emitter:
                              self.unit_index['Unit::' + m[2:]], m, fmt) for m in umods) + ']')
         lines.append('end PhQVerif.Generated')
         self.write('All.lean', '\n'.join(lines) + '\n')
+        self._emit_pairs(umods)
         # remove stale generated files
         for fn in os.listdir(self.gen_dir):
             p = os.path.abspath(os.path.join(self.gen_dir, fn))
@@ -350,6 +369,41 @@ class Emitter:
                 os.unlink(p)
                 self.changed.append('-' + fn)
         return {'modules': len(mods) + 2, 'entries': counts, 'changed': self.changed}
+
+    def emit_kernels(self):
+        """Per unit type: the traced static conversion kernels, as small separate modules."""
+        names = []
+        for en in self.unit_names:
+            short = en.split('::')[1]
+            ens = self.facts['enums'][en]
+            std = [u for u in self.tables['units'] if u['name'] == en][0]['standard']
+            L = ['-- GENERATED by emit_lean.py from /repo/include -- do not edit.',
+                 'import PhQVerif.Core.Model', 'set_option maxRecDepth 100000',
+                 'namespace PhQVerif.Generated', '']
+            for fmt in (32, 64, 80):
+                to, frm = [], []
+                for u in ens:
+                    for (d, acc) in (('ToStandard', to), ('FromStandard', frm)):
+                        ke = self.by_id.get('unit::kernel::%s<%s::%s>' % (d, short, u))
+                        t = ke['instances'][0]['fmts'][str(fmt)]['tree']
+                        assert t['t'] == 'leaf' and len(t['outs']) == 1, 'branching conversion kernel'
+                        acc.append(expr(sexpr.parse(t['outs'][0]['t'])))
+                L.append('def K_%s.kernels%d : UnitKernels :=\n  { standard := %d,\n    toStd := [%s],\n'
+                         '    fromStd := [%s] }' % (short, fmt, std, ',\n      '.join(to), ',\n      '.join(frm)))
+            L.append('end PhQVerif.Generated')
+            self.write('K_%s.lean' % short, '\n'.join(L) + '\n')
+            names.append(short)
+        L = ['-- GENERATED by emit_lean.py -- do not edit.'] + ['import PhQVerif.Generated.K_%s' % n for n in names]
+        L += ['namespace PhQVerif.Generated', '']
+        for fmt in (32, 64, 80):
+            L.append('/-- Row `t` (1-based) is the kernel table of unit type `t`. -/')
+            L.append('def kernelsByType%d : List UnitKernels := [\n  %s]' % (
+                fmt, ',\n  '.join('K_%s.kernels%d' % (n, fmt) for n in names)))
+        L.append('def kernelsOf (fm : Fm) (t : Nat) : Option UnitKernels :=\n  if t = 0 then none else\n'
+                 '  match fm with\n  | .f32 => kernelsByType32[t - 1]?\n  | .f64 => kernelsByType64[t - 1]?\n'
+                 '  | .f80 => kernelsByType80[t - 1]?')
+        L.append('end PhQVerif.Generated')
+        self.write('Kernels.lean', '\n'.join(L) + '\n')
 
     def emit_tables(self):
         t = self.tables
@@ -417,6 +471,8 @@ OBLIGATIONS = [
     ('C03op', 'Q', 'Chk.C03op', 'quantityEntries'),
     ('C04arith', 'Q', 'Chk.C04arith', 'quantityEntries'),
     ('C04std', 'Q', 'Chk.C04std', 'quantityEntries'),
+    ('C02unit', 'U', 'Chk.C02unit', 'unitEntries'),
+    ('C02class', 'Q', 'Chk.C02class', 'quantityEntries'),
     ('C16cast', 'Q', 'Chk.C16cast', 'quantityEntries'),
     ('C17access', 'Q', 'Chk.C17access', 'quantityEntries'),
     ('C20uninitQ', 'Q', 'Chk.C20uninitStrict', 'quantityEntries'),
@@ -483,6 +539,25 @@ def emit_list_with_obligation(em, modname, elem_type, rows, imports, checker, ob
     L.append('  exact ' + nest(['%s.c%d' % (oblname, ci) for ci in range(len(chunks))]))
     L += ['', 'end PhQVerif.Generated.Obl']
     em.write('Obl_%s.lean' % oblname, '\n'.join(L) + '\n')
+
+
+def emit_pairs_obligations(em, umods):
+    """Scalar Convert over all ordered pairs: one kernel-evaluated lemma per unit type and format."""
+    for fmt in (32, 64, 80):
+        L = ['-- GENERATED by emit_lean.py -- obligations discharged by kernel evaluation.',
+             'import PhQVerif.Checkers', 'import PhQVerif.Generated.All',
+             'set_option maxRecDepth 100000', 'namespace PhQVerif.Generated.Obl', '']
+        names = []
+        for m in umods:
+            t = em.unit_index['Unit::' + m[2:]]
+            L.append('theorem C02pairs%d.%s : Chk.C02pairs .f%d (%d, %s.convertPairs%d) = true := by decide +kernel'
+                     % (fmt, m, fmt, t, m, fmt))
+            names.append('C02pairs%d.%s' % (fmt, m))
+        L.append('theorem C02pairs%d : convertPairsByType%d.all (Chk.C02pairs .f%d) = true := by' % (fmt, fmt, fmt))
+        L.append('  simp only [convertPairsByType%d, List.all_cons, List.all_nil, %s, Bool.and_self]'
+                 % (fmt, ', '.join(names)))
+        L += ['', 'end PhQVerif.Generated.Obl']
+        em.write('Obl_C02pairs%d.lean' % fmt, '\n'.join(L) + '\n')
 
 
 def emit_dircast(em):
